@@ -92,7 +92,9 @@ def run(cfg, tier, seed):
         m = re.search(r"error: ([^\n]*)", log)
         proof_broken = "lake build failed: " + (m.group(1) if m else log[-500:])
     else:
-        bad = lib.forbidden_tokens()
+        roots = [cfg.prop_module] + [lib.exe_root(t) for t in (cfg.lean_targets or [])]
+        bad = lib.forbidden_tokens([r for r in roots if r])
+        cov["lean_files_audited"] = [os.path.relpath(p, lib.LEAN) for p in lib.import_closure([r for r in roots if r])]
         if bad:
             proof_broken = "forbidden tokens in Lean sources: " + "; ".join(bad[:5])
         axioms, n_ex2, problems = lib.lean_audit(cfg.prop_module)
